@@ -4,7 +4,8 @@
 // Built against the plain and the ASan+UBSan library variants.
 //
 // One case per line, fields separated by '|':
-//   <id>|E:<entry>|S:<hex stylesheet bytes>|D:<hex source bytes>|P:name=<hex expr>;...|X:<hex XPath bytes (UTF-8, lenient)>
+//   <id>|E:<entry>|S:<hex stylesheet bytes>|D:<hex source bytes>|P:name=<hex expr>;...|X:<hex XPath bytes (UTF-8, lenient)>[|O:full]
+//   O:full  print the whole output in hex instead of its first 96 bytes (serializer buffer-boundary sweep)
 // entry:  T  XalanTransformer::transform(stream, stream, ostream)
 //         C  compileStylesheet + parseSource + transform(parsed, compiled) + destroy both
 //         A  C API: XalanCompileStylesheetFromStream + XalanParseSourceFromStream + XalanTransformToDataPrebuilt
@@ -144,7 +145,7 @@ int main(int argc, char** argv)
         if (line.empty() || line[0] == '#') continue;
         std::vector<std::string> fs;
         { size_t i = 0; while (true) { size_t j = line.find('|', i); fs.push_back(line.substr(i, j == std::string::npos ? j : j - i)); if (j == std::string::npos) break; i = j + 1; } }
-        std::string id = fs[0], entry = "T", sheet, src, xp;
+        std::string id = fs[0], entry = "T", sheet, src, xp, opts;
         std::vector<std::pair<std::string, std::string> > params;
         for (size_t k = 1; k < fs.size(); ++k) {
             const std::string& x = fs[k];
@@ -152,6 +153,7 @@ int main(int argc, char** argv)
             else if (x.compare(0, 2, "S:") == 0) sheet = unhex(x.substr(2));
             else if (x.compare(0, 2, "D:") == 0) src = unhex(x.substr(2));
             else if (x.compare(0, 2, "X:") == 0) xp = unhex(x.substr(2));
+            else if (x.compare(0, 2, "O:") == 0) opts = x.substr(2);
             else if (x.compare(0, 2, "P:") == 0) {
                 std::string body = x.substr(2); size_t i = 0;
                 while (i < body.size()) {
@@ -247,7 +249,7 @@ int main(int argc, char** argv)
             } else post = postTransformer(t);
         } else if (rc != 0 || !esc.empty()) post = postTransformer(t);
         if (!esc.empty()) std::cout << id << "|exc|" << esc << "|" << post << "||0\n";
-        else std::cout << id << "|" << rc << "|" << (msg.empty() ? 0 : 1) << "|" << post << "|" << hex(out, 96) << "|" << out.size() << "\n";
+        else std::cout << id << "|" << rc << "|" << (msg.empty() ? 0 : 1) << "|" << post << "|" << hex(out, opts.find("full") != std::string::npos ? std::string::npos : 96) << "|" << out.size() << "\n";
         std::cout.flush();
     }
     delete xs;
